@@ -26,7 +26,7 @@ ASSUMPTIONS = ["depth = longest chain of nested grammar-class instances; lists, 
                "a limit between the true minimum and the (conservative) reported minimum may be rejected up-front or served, never failed midway",
                "'completes without error' is judged on grammars without failing refinements; in the stratum with failing refinements (Flaky, infeasible Dependent) an operation may fail and only the depth of produced programs is judged"]
 
-FEAT = features(list=3, annlist=3, union=2, tuple=1, nested=2, cls=8, refined=2, standalone=1, concrete_start=1, infeasible=0, nested_generic=1, deep_chain=1, self_ref=1, nested_list=1, falsy=1)
+FEAT = features(list=3, annlist=3, union=2, tuple=1, nested=2, cls=8, refined=2, standalone=1, concrete_start=1, infeasible=0, nested_generic=1, deep_chain=1, self_ref=1, nested_list=1, falsy=1, future_annotations=1)
 
 
 def budget(tier):
